@@ -1,5 +1,6 @@
 import TpmVerif.Model.Session
 import TpmVerif.Model.Context
+import TpmVerif.Model.ObjCtx
 /-!
   C11 — session slots are accounted; a saved session context loads at most once, in order, and the
   truncated context counter is never reused ambiguously.  Theorems about `Model.Session`
@@ -303,3 +304,118 @@ theorem short_blob_rejected (proof : Bytes) (total clear seq handle : Nat) (blob
 end protection
 
 end TpmVerif.Props.C11
+
+/-! ### Saved object contexts: what ends their life -/
+
+namespace TpmVerif.Props.C11.ObjCtx
+open TpmVerif.Model.ObjCtx
+
+/-- counters and generations never go down, whatever happens -/
+theorem bump_ge (g : Hier → Nat) (h x : Hier) : g x ≤ bump g h x := by
+  unfold bump; split <;> omega
+
+theorem step_mono (n : Now) (e : Event) : n.total ≤ (step n e).total ∧ ∀ h, n.gen h ≤ (step n e).gen h := by
+  cases e with
+  | resume => simp [step]
+  | restart => simp [step]
+  | reset => exact ⟨by simp [step], fun h => by simpa [step] using bump_ge n.gen .null h⟩
+  | clear => exact ⟨by simp [step], fun h => by
+      simp only [step]; exact Nat.le_trans (bump_ge n.gen .owner h) (bump_ge _ .endorsement h)⟩
+  | changeEPS => exact ⟨by simp [step], fun h => by simpa [step] using bump_ge n.gen .endorsement h⟩
+  | changePPS => exact ⟨by simp [step], fun h => by simpa [step] using bump_ge n.gen .platform h⟩
+  | control h v => simp [step]
+
+theorem run_mono (es : List Event) : ∀ (n : Now), n.total ≤ (run n es).total ∧ ∀ h, n.gen h ≤ (run n es).gen h := by
+  induction es with
+  | nil => intro n; simp [run]
+  | cons e es ih =>
+    intro n
+    have h1 := step_mono n e
+    have h2 := ih (step n e)
+    simp only [run, List.foldl] at h2 ⊢
+    exact ⟨Nat.le_trans h1.1 h2.1, fun h => Nat.le_trans (h1.2 h) (h2.2 h)⟩
+
+/-- **an object context does not load after a TPM Reset**, whatever else happens before or after it -/
+theorem not_after_reset (n : Now) (h : Hier) (st : Bool) (before after : List Event) :
+    load (save n h st) (run (step (run n before) .reset) after) = .integrity := by
+  have h1 := (run_mono before n).1
+  have h2 := (run_mono after (step (run n before) .reset)).1
+  have h3 : (step (run n before) .reset).total = (run n before).total + 1 := by simp [step]
+  have : (save n h st).total ≠ (run (step (run n before) .reset) after).total := by simp [save]; omega
+  simp [load, intact, this]
+
+/-- the hierarchies whose proof an event replaces -/
+def replaces : Event → Hier → Bool
+  | .clear, .owner => true
+  | .clear, .endorsement => true
+  | .changeEPS, .endorsement => true
+  | .changePPS, .platform => true
+  | .reset, .null => true
+  | _, _ => false
+
+theorem replaces_bumps (n : Now) (e : Event) (h : Hier) (hr : replaces e h = true) : (step n e).gen h = n.gen h + 1 := by
+  cases e <;> cases h <;> simp [replaces] at hr <;> simp [step, bump]
+
+/-- **an object context does not load after its hierarchy was cleared** (TPM2_Clear for owner and endorsement, ChangeEPS for
+    endorsement, ChangePPS for platform, a Reset for the null hierarchy), whatever else happens before or after -/
+theorem not_after_proof_replaced (n : Now) (h : Hier) (st : Bool) (e : Event) (hr : replaces e h = true) (before after : List Event) :
+    load (save n h st) (run (step (run n before) e) after) = .integrity := by
+  have h1 := (run_mono before n).2 h
+  have h2 := (run_mono after (step (run n before) e)).2 h
+  have h3 := replaces_bumps (run n before) e h hr
+  have : (save n h st).gen ≠ (run (step (run n before) e) after).gen (save n h st).hier := by simp [save]; omega
+  simp [load, intact, this]
+
+/-- **an object context does not load while its hierarchy is disabled** -/
+theorem not_while_disabled (c : Ctx) (n : Now) (hd : n.enabled c.hier = false) : load c n ≠ .ok := by
+  unfold load; split
+  · simp
+  · simp [hd]
+
+/-- an stClear object's context does not survive a TPM Restart (until the next Reset, which ends it anyway) -/
+theorem stclear_not_after_restart (n : Now) (h : Hier) (before : List Event) :
+    load (save n h true) (step (run n before) .restart) = .integrity ∨ (run n before).clear + 1 = n.clear := by
+  by_cases hc : (run n before).clear + 1 = n.clear
+  · exact Or.inr hc
+  · left
+    have : ¬ (n.clear = (run n before).clear + 1) := fun h' => hc h'.symm
+    simp [load, intact, save, step, this]
+
+/-- what keeps a context alive: nothing it is bound to has changed and the hierarchy is enabled -/
+theorem loads_iff (c : Ctx) (n : Now) :
+    load c n = .ok ↔ (c.total = n.total ∧ c.gen = n.gen c.hier ∧ (c.stClear = true → c.clear = n.clear) ∧ n.enabled c.hier = true) := by
+  unfold load intact
+  by_cases h1 : c.total = n.total <;> by_cases h2 : c.gen = n.gen c.hier <;> by_cases h3 : c.clear = n.clear <;>
+    cases hs : c.stClear <;> cases he : n.enabled c.hier <;> simp [h1, h2, h3]
+
+/-- the positive side: a loadable context stays loadable through every event that is not a Reset, does not replace its
+    hierarchy's proof, does not disable its hierarchy, and — for an stClear object — is not a Restart -/
+theorem survives (c : Ctx) (n : Now) (e : Event) (hl : load c n = .ok) (hr : replaces e c.hier = false) (hreset : e ≠ .reset)
+    (hst : e = .restart → c.stClear = false) (hdis : e ≠ .control c.hier false) : load c (step n e) = .ok := by
+  obtain ⟨h1, h2, h3, h4⟩ := (loads_iff c n).mp hl
+  apply (loads_iff c (step n e)).mpr
+  cases e with
+  | resume => exact ⟨h1, h2, h3, h4⟩
+  | restart => exact ⟨h1, h2, fun hs => by simp [hst rfl] at hs, by simp [step]⟩
+  | reset => exact absurd rfl hreset
+  | clear =>
+    cases hh : c.hier <;> simp [replaces, hh] at hr
+    all_goals (refine ⟨h1, ?_, h3, ?_⟩ <;> simp [step, bump, setEn, hh] <;> simp [hh] at h2 h4 <;> assumption)
+  | changeEPS =>
+    cases hh : c.hier <;> simp [replaces, hh] at hr
+    all_goals (refine ⟨h1, ?_, h3, ?_⟩ <;> simp [step, bump, setEn, hh] <;> simp [hh] at h2 h4 <;> assumption)
+  | changePPS =>
+    cases hh : c.hier <;> simp [replaces, hh] at hr
+    all_goals (refine ⟨h1, ?_, h3, ?_⟩ <;> simp [step, bump, setEn, hh] <;> simp [hh] at h2 h4 <;> assumption)
+  | control h v =>
+    refine ⟨h1, h2, h3, ?_⟩
+    simp only [step, setEn]
+    by_cases hx : c.hier = h
+    · subst hx
+      cases v with
+      | true => simp
+      | false => exact absurd rfl hdis
+    · simp [hx, h4]
+
+end TpmVerif.Props.C11.ObjCtx
+
